@@ -164,6 +164,18 @@ func runSimProp(t *testing.T, p *simProp) {
 			if p.Setup != nil {
 				p.Setup(rt, sim, g)
 			}
+			// about one case in 40 (of the checks that register filters at all) starts with more registered
+			// filters than the cache's bookkeeping reserves at once (128)
+			if p.Mix[core.OpRegister] > 0 && rapid.IntRange(0, 999).Draw(rt, "manyFilters")%33 == 17 {
+				g.Lim.MaxSlots = 140
+				n := 126 + rapid.IntRange(0, 10).Draw(rt, "nFilters")
+				for i := 0; i < n && !sim.Done(); i++ {
+					if op, ok := g.DrawKind(rt, core.OpRegister); ok {
+						sim.Apply(op)
+					}
+				}
+				cs.Label("more than 125 registered filters")
+			}
 			cs.Sample(func() any {
 				ops := make([]string, len(sim.Ops))
 				for i := range sim.Ops {
